@@ -139,13 +139,14 @@ def make_ragged(t, rng, frac):
     return t
 
 
-def make_tissue(seed, ncells, ragged=0.0):
-    """Well-shaped Voronoi tissue in pixel units (angles > 25 deg, ridges > 8 px), or None."""
+def make_tissue(seed, ncells, ragged=0.0, wild=False):
+    """Well-shaped Voronoi tissue in pixel units (angles > 25 deg, ridges > 8 px), or None.
+    wild=True: strongly jittered sites, any angles and ridge lengths (very short walls, near four-way contacts)."""
     rng = T.PRNG(seed)
     px = float(rng.uniform(35, 90))
     side = max(4, int(math.ceil(math.sqrt(ncells))) + 3)
     g = np.array([(i + 0.5 + 0.5 * (j % 2), (j + 0.5) * 0.9) for j in range(side) for i in range(side)], float)
-    pts = g + rng.uniform(-0.22, 0.22, size=g.shape)
+    pts = g + rng.uniform(-0.22, 0.22, size=g.shape) * (2.0 if wild else 1.0)
     for attempt in range(4):
         z = (pts[:, 0] + 1j * pts[:, 1]) * px
         box = (0.6 * px, (side - 0.1) * px, 0.5 * px, (side - 0.6) * 0.9 * px)
@@ -159,7 +160,7 @@ def make_tissue(seed, ncells, ragged=0.0):
         if ragged > 0:
             t = make_ragged(t, rng, ragged)
         a, l = min_angle_and_length(t)
-        if a > math.radians(25) and l > 8.0:
+        if (a > math.radians(25) and l > 8.0) or wild:
             return t, px
         # Lloyd step on all sites (centroid of bounded cells), then retry
         from scipy.spatial import Voronoi
@@ -190,10 +191,10 @@ def rasterise(t, margin=4):
     return fg, pix, (x0 - margin, y0 - margin)
 
 
-def make_image(seed, ncells, ragged=0.0):
+def make_image(seed, ncells, ragged=0.0, thinning=True, wild=False):
     """Returns dict(array uint8 with a 1-px margin added for the parser's crop, fg (cropped view), tissue, labels,
     regions) or None when the image preconditions are not met (counted by the caller)."""
-    mt = make_tissue(seed, ncells, ragged)
+    mt = make_tissue(seed, ncells, ragged, wild=wild)
     if mt is None:
         return None
     t, px = mt
@@ -207,20 +208,30 @@ def make_image(seed, ncells, ragged=0.0):
     for k in range(1, n + 1):
         if k not in border and sizes[k] < 8:
             fg[lab == k] = True
-    fg = thin(fg)
-    # preconditions, independent of forsys
-    if label8_count(fg) != 1 or has_2x2(fg):
-        return None
-    ys, xs = np.nonzero(fg)
     H, W = fg.shape
-    for i, j in zip(ys.tolist(), xs.tolist()):
-        if 0 < i < H - 1 and 0 < j < W - 1 and is_simple(fg, i, j):
+    if thinning:
+        fg = thin(fg)
+        # preconditions, independent of forsys
+        if label8_count(fg) != 1 or has_2x2(fg):
             return None
+        ys, xs = np.nonzero(fg)
+        for i, j in zip(ys.tolist(), xs.tolist()):
+            if 0 < i < H - 1 and 0 < j < W - 1 and is_simple(fg, i, j):
+                return None
+    elif label8_count(fg) != 1:
+        # raw line raster (junction pixels not minimal: corner artefacts that the parser has to merge)
+        return None
     lab, n = label4(~fg)
     border = set(np.unique(np.concatenate([lab[0], lab[-1], lab[:, 0], lab[:, -1]]))) - {0}
     if len(border) != 1:
         return None
     enclosed = [k for k in range(1, n + 1) if k not in border]
+    if wild:
+        # no ground truth is attached to such images: they only have to parse into a consistent mesh (C09)
+        arr = np.zeros((H + 2, W + 2), dtype=np.uint8)
+        arr[1:-1, 1:-1] = fg.astype(np.uint8) * 255
+        return {"array": arr, "fg": fg, "tissue": t, "labels": lab, "outside": next(iter(border)),
+                "region_of_cell": None, "px": px, "origin": origin}
     if len(enclosed) != len(t.cells):
         return None
     # map regions to tissue cells by the cell's centroid pixel
